@@ -123,6 +123,16 @@ Inductive achain (a : astore) : aval -> list aval -> aval -> Prop :=
 | ac_cons : forall p x d xs e,
     a_pair a p = Some (x, d) -> achain a d xs e -> achain a (ALoc (LPair p)) (x :: xs) e.
 
+(* an initial segment of a chain: the locations of its pairs, their elements, and the
+   value the segment leads to.  Used to say "a NEWLY ALLOCATED list with elements xs
+   that shares its tail with e" (append) or "... that ends in ()" (reverse, list,
+   vector->list). *)
+Inductive aprefix (a : astore) : aval -> list N -> list aval -> aval -> Prop :=
+| ap_nil : forall v, aprefix a v [] [] v
+| ap_cons : forall p x d ps xs e,
+    a_pair a p = Some (x, d) -> aprefix a d ps xs e ->
+    aprefix a (ALoc (LPair p)) (p :: ps) (x :: xs) e.
+
 (* the proper-list reading of an abstract value *)
 Definition alist (a : astore) (v : aval) (xs : list aval) : Prop := achain a v xs (AImm VNil).
 
